@@ -36,6 +36,10 @@ type PosCase struct {
 	Params   *string        `json:"params"`
 	RetErr   bool           `json:"ret_err,omitempty"`
 	Workers  int            `json:"workers,omitempty"` // >0: concurrent calls with per-call distinct params (Params ignored)
+	// Later: after the handler under test has been made, the same FuncInfo is
+	// reconfigured (SetStrict(false), AllowArray(false)) and wrapped again: the
+	// handler made first keeps what it was made with.
+	Later bool `json:"later,omitempty"`
 }
 
 func makeRequest(params *string) *jrpc2.Request {
@@ -180,6 +184,9 @@ func runPos(_ *testing.T, c PosCase) engine.Verdict {
 		return engine.Verdict{NonTrivial: err != nil, Labels: []string{"rejected-or-nullary"}}
 	}
 	h := fi.Wrap()
+	if c.Later {
+		_ = fi.SetStrict(false).AllowArray(false).Wrap()
+	}
 	if c.Workers > 0 {
 		return runConcurrent(c, h, types, &mu, &calls)
 	}
@@ -329,6 +336,7 @@ func genPos(t *rapid.T) PosCase {
 		c.Args = append(c.Args, c15.GenType(t, 1, i == 0 && rapid.Bool().Draw(t, "structarg")))
 	}
 	c.Names = genNames(t, n)
+	c.Later = rapid.IntRange(0, 4).Draw(t, "later") == 0
 	switch rapid.IntRange(0, 23).Draw(t, "namecount") {
 	case 0:
 		if n > 0 {
